@@ -12,6 +12,7 @@ pub mod c05;
 pub mod c06;
 pub mod c07;
 pub mod c08;
+pub mod c09;
 pub mod c10;
 pub mod c11;
 pub mod c12;
@@ -34,6 +35,7 @@ pub fn run(ctx: &Ctx) -> i32 {
         "C06" => c06::run(ctx),
         "C07" => c07::run(ctx),
         "C08" => c08::run(ctx),
+        "C09" => c09::run(ctx),
         "C10" => c10::run(ctx),
         "C11" => c11::run(ctx),
         "C12" => c12::run(ctx),
@@ -62,6 +64,7 @@ pub fn replay(prop: &'static str, path: &str) -> i32 {
         "C06" => Box::new(c06::replay),
         "C07" => Box::new(c07::replay),
         "C08" => Box::new(c08::replay),
+        "C09" => Box::new(c09::replay),
         "C10" => Box::new(c10::replay),
         "C11" => Box::new(c11::replay),
         "C12" => Box::new(c12::replay),
@@ -84,6 +87,7 @@ pub fn child_main(args: &[String]) -> i32 {
     match args.get(0).map(|s| s.as_str()) {
         Some("parse") => c14::child(args),
         Some("seeds") => c18::child(args),
+        Some("tz") => c09::child(args),
         _ => 2,
     }
 }
